@@ -362,22 +362,46 @@ def _compare_paths(live_paths, ref_paths, effects, outcome_norm, rn,
     rows = 0
     unknown = {}
     lvals = []
+    set_aside = []
     for lp in live_paths:
         lval = {_rename_atom(a, rn): v for a, v in lp.valuation.items()}
         known = {a: v for a, v in lval.items()
                  if atom_vocab_key(a) in vocab}
         unk = [a for a in lval if atom_vocab_key(a) not in vocab]
         lo_ = norm(lp)
-        if unk and lo_[0] == "raise" and str(lo_[1]).endswith(
-                "AssertionError") and any(
-                    lval[a] is not None for a in unk):
-            # an assertion (assert / raise AssertionError) about something
-            # the reference does not observe: a defensive check, read as an
-            # assumption -- the path on which it fails is left out
-            continue
+        if lo_[0] == "raise" and str(lo_[1]).endswith("AssertionError"):
+            # a failing assertion (assert / raise AssertionError) where the
+            # reference, on the same observations, asserts nothing: a
+            # defensive check, read as an assumption -- the path on which it
+            # fails is set aside (and must not be the only path the live code
+            # has for a case the reference handles, see below)
+            ref_asserts = any(
+                _compatible({_rename_atom(a, rn): v
+                             for a, v in rp.valuation.items()}, known)
+                and str(norm(rp)[1]).endswith("AssertionError")
+                for rp in ref_paths if rp.outcome[0] == "raise")
+            if not ref_asserts:
+                set_aside.append((lp, lval, known, unk, lo_))
+                continue
         lvals.append((lp, lval, known, unk, lo_))
     rvals = [({_rename_atom(a, rn): v for a, v in rp.valuation.items()},
               norm(rp)) for rp in ref_paths]
+    # a case the reference handles for which the live code has nothing but
+    # a failing assertion
+    for rval, ro in rvals:
+        if any(_compatible(rval, known) for _, _, known, _, _ in lvals):
+            continue
+        for lp, lval, known, unk, lo in set_aside:
+            if _compatible(rval, known):
+                return {"verdict": "violation", "rows": rows, "witness": {
+                    "reference_valuation": {A.fmt_atom(a): v
+                                            for a, v in rval.items()},
+                    "reference": _show(ro), "live": _show(lo),
+                    "valuation": {A.fmt_atom(a): v for a, v in lval.items()},
+                    "note": "the only live path for this case is a failing "
+                            "assertion"},
+                    "live_paths": len(live_paths),
+                    "ref_paths": len(ref_paths)}
     for lp, lval, known, unk, lo in lvals:
         for rval, ro in rvals:
             if not _compatible(rval, known):
